@@ -209,6 +209,7 @@ def main(argv=None):
         if kf is not None:
             known_lines.append("KNOWN-FINDING: property=%s %s" % (pid, kf.get("what", r["name"])))
             kf["_seen"] = True
+            r["known_finding"] = True
             continue
         with open(os.path.join(ROOT, path), "w") as f:
             json.dump(rec, f, indent=1, default=str)
@@ -251,8 +252,11 @@ def main(argv=None):
     for u in unknown:
         print("UNDECIDED %s (%s)" % (u["name"], u.get("reason", u["status"])))
 
+    known_obs = [r["name"] for r in refuted if r.get("known_finding")]
+    obligations = [r for r in obligations if not r.get("known_finding")]
+    refuted = [r for r in refuted if not r.get("known_finding")]
     write_evidence(mod, pid, tier, seed, obligations, discharged, refuted, unknown, covers, bounded, known_lines,
-                   violations, engine_errors, time.time() - t0, canary_ok)
+                   violations, engine_errors, time.time() - t0, canary_ok, known_obs)
     print("%s tier=%s obligations=%d discharged=%d refuted=%d undecided=%d bounded_cases=%d wall=%.1fs exit=%d" % (
         pid, tier, len(obligations), len(discharged), len(refuted), len(unknown),
         sum(b.get("cases", 0) for b in bounded), time.time() - t0, status))
@@ -264,13 +268,19 @@ def match_known(known, obname, rep, native_res):
         if k.get("status") != "known":
             continue
         pat = k.get("obligation", "")
-        if pat and (pat == obname or (pat.endswith("*") and obname.startswith(pat[:-1]))):
+        name_ok = bool(pat) and (pat == obname or (pat.endswith("*") and obname.startswith(pat[:-1])))
+        if obname.startswith("bounded/"):
+            # a bounded run-time failure is identified by its concrete failing call only
+            if not k.get("replay_match") or rep is None or not all(subdict_match(k["replay_match"], rep)):
+                continue
+        else:
+            if not name_ok:
+                continue
             if k.get("replay_match"):
                 # the finding is identified by its specific failing call: every key listed must agree
-                if rep is None:
+                if rep is None or not all(subdict_match(k["replay_match"], rep)):
                     continue
-                if not all(subdict_match(k["replay_match"], rep)):
-                    continue
+        if True:
             if native_res is not None and not native_res.get("reproduced", False):
                 continue
             return k
@@ -307,7 +317,7 @@ def canary_job(timeout_ms=10000):
 
 
 def write_evidence(mod, pid, tier, seed, obligations, discharged, refuted, unknown, covers, bounded, known_lines,
-                   violations, engine_errors, wall, canary_ok):
+                   violations, engine_errors, wall, canary_ok, known_obs=()):
     import z3
     by_backend = {}
     for r in discharged:
@@ -336,6 +346,7 @@ def write_evidence(mod, pid, tier, seed, obligations, discharged, refuted, unkno
             vacuity=dict(cover_queries=len(covers), cover_sat=sum(1 for c in covers if c["status"] == "cover-sat"),
                          canary_refuted=canary_ok),
             known_findings=sorted(set(known_lines)),
+            known_finding_obligations=list(known_obs),
             engine_errors=[n for n, _ in engine_errors],
             exhaustive=False,
         ),
